@@ -155,8 +155,10 @@ def cases_for(tier):
                 continue
             if tier == 'quick' and pair == 2 and ev not in (3, 4, 6, 7):
                 continue
-            for i in range(2):
-                cases.append(dict(pair=pair, event=ev, bound=bound, shard=[i, 2]))
+            b = bound if (tier == 'quick' or (pair == 1 and ev in (0, 3, 7, 8))) else 1
+            n = 2 if b == 1 else 8
+            for i in range(n):
+                cases.append(dict(pair=pair, event=ev, bound=b, shard=[i, n]))
     return cases
 
 
@@ -175,7 +177,7 @@ def run(tier, seed, started):
                  'the quiescent points of the explored phase (X or a timer overtaking a pending '
                  'reply/job, a younger reply/job first, hold of the oldest + release at any later '
                  'point); distinct_nontrivial = distinct (scenario, choice vector)'),
-        'deviation_bound_completed': 1 if tier == 'quick' else 2,
+        'deviation_bound_completed': 1 if tier == 'quick' else '2 on four scenarios of the second (S0, S1) pair; 1 on all',
         'choice_points': c['choice_points'],
         'max_choice_points_in_one_execution': c.get('max:choice_points_in_one_execution'),
         'deviation_kinds_used': sorted(kinds),
